@@ -114,7 +114,7 @@ claimed = {
         "(c) both builders emit `const NAME = Value` from the table entry of a terminal and translate cases `code -> symbol id` for terminals only, "
         "(d) the lexer's character-literal token carries a lexeme whose first rune is the character written (sender-side token log), a %token with a number keeps it, a name "
         "without number or introduced by a precedence line gets 0 = automatic, (e) BuildLALR1 copies name, code and tag of every identifier onto its grammar symbol and gives the "
-        "end marker the code -1, (f) in every rendered Go parser translate() and TraceTranslate() are nothing but the emitted cases (extraction obligation shape:translate-cases: `var conv = zero; switch c { case <int>: conv = <literal> ... }; return conv`, no default clause), so a code without a case maps to symbol 0 = error.",
+        "end marker the code -1; the internal name of a character literal is the fixed prefix followed by the literal itself (genTempName, proved), so different literals never share a table entry, (f) in every rendered Go parser translate() and TraceTranslate() are nothing but the emitted cases (extraction obligation shape:translate-cases: `var conv = zero; switch c { case <int>: conv = <literal> ... }; return conv`, no default clause), so a code without a case maps to symbol 0 = error.",
    note=TB + "The token cursor parser.next/backup/expect is verified (C13); assumed at the receive site: a character token has a non-empty lexeme. Trusted contracts: SortedIdNames (returns the keys), "
         "utf8.DecodeRuneInString. Interior pointers &IdentifyList[i] are modelled as fresh objects holding a copy (the slice element is never read again). "
         "Not proved: that EVERY terminal gets a translate case (only: each case is right and no nonterminal has one). A-seq: the token received is the token sent.",
